@@ -328,7 +328,28 @@ def oracles(ctx, deep):
         if rng.random() < 0.3:
             b[(torch.rand(*shape, generator=g) < 0.3)] = 0.0
         runs += 1
-        cfg = {"shape": shape, "coil_axis": ca, "scale": scale}
+        layout = rng.choice(["contiguous", "contiguous", "permuted", "channels-first", "strided", "transposed", "negative-axis"])
+        cfg = {"shape": shape, "coil_axis": ca, "scale": scale, "layout": layout}
+
+        def relayout(t):
+            # same values, different memory layouts; none of them may change a result
+            n = t.dim()
+            if layout == "permuted":  # complex axis stored first
+                return t.permute(-1, *range(n - 1)).contiguous().permute(*range(1, n), 0)
+            if layout == "channels-first" and n >= 3:  # (N, 2, ...) network output permuted to complex-last
+                perm = [0, n - 1] + list(range(1, n - 1))
+                inv = [perm.index(i) for i in range(n)]
+                return t.permute(*perm).contiguous().permute(*inv)
+            if layout == "strided":  # every other row of a larger buffer
+                big = torch.zeros(*t.shape[:-2], 2 * t.shape[-2], 2, dtype=t.dtype)
+                big[..., ::2, :] = t
+                return big[..., ::2, :]
+            if layout == "transposed" and n >= 3:
+                return t.transpose(-2, -3).contiguous().transpose(-2, -3)
+            return t
+
+        a, b, x = relayout(a), relayout(b), relayout(x)
+        ca_arg = ca - (len(shape) + 1) if layout == "negative-axis" else ca  # the same axis, counted from the end
         tol = 1e-9 * scale * scale * 10
 
         def close(u, v, what, fnname, extra_tol=1.0):
@@ -336,31 +357,31 @@ def oracles(ctx, deep):
                 add(Violation(what, "%s disagrees with native complex arithmetic for %s (max err %.3g)" % (fnname, cfg, float((u - v).abs().max()) if u.shape == v.shape else -1), {"config": cfg, "function": fnname}, {"fn": fnname}))
 
         try:
-            close(T.complex_multiplication(a, b), torch.view_as_real(vc(a) * vc(b)), "complex-mul", "complex_multiplication")
-            close(T.conjugate(a), torch.view_as_real(vc(a).conj().resolve_conj()), "complex-conj", "conjugate")
-            close(T.modulus(a), vc(a).abs(), "complex-modulus", "modulus")
+            close(T.complex_multiplication(a, b), torch.view_as_real(vc(a.contiguous()) * vc(b.contiguous())), "complex-mul", "complex_multiplication")
+            close(T.conjugate(a), torch.view_as_real(vc(a.contiguous()).conj().resolve_conj()), "complex-conj", "conjugate")
+            close(T.modulus(a), vc(a.contiguous()).abs(), "complex-modulus", "modulus")
             nz = (b ** 2).sum(-1) != 0
             d = T.complex_division(a, b)
-            ref = torch.view_as_real(vc(a) / torch.where(nz, vc(b), torch.ones_like(vc(b))))
+            ref = torch.view_as_real(vc(a.contiguous()) / torch.where(nz, vc(b.contiguous()), torch.ones_like(vc(b.contiguous()))))
             ref = torch.where(nz.unsqueeze(-1), ref, torch.zeros_like(ref))
             if d.shape != ref.shape or not torch.allclose(d, ref, rtol=1e-7, atol=1e-9) or not torch.isfinite(d).all():
                 add(Violation("complex-div", "complex_division disagrees with native division / is not zero on zero divisors for %s" % cfg, {"config": cfg}, {"fn": "complex_division"}))
-            close(T.complex_dot_product(a, b, dim=[ca]), torch.view_as_real((vc(a).conj() * vc(b)).sum(ca)), "complex-dot", "complex_dot_product", coils)
-            close(T.root_sum_of_squares(a, dim=ca), (vc(a).abs() ** 2).sum(ca).sqrt(), "rss", "root_sum_of_squares", coils)
+            close(T.complex_dot_product(a, b, dim=[ca_arg]), torch.view_as_real((vc(a.contiguous()).conj() * vc(b.contiguous())).sum(ca)), "complex-dot", "complex_dot_product", coils)
+            close(T.root_sum_of_squares(a, dim=ca), (vc(a.contiguous()).abs() ** 2).sum(ca).sqrt(), "rss", "root_sum_of_squares", coils)
             S = a
-            red = T.reduce_operator(b, S, dim=ca)
-            close(red, torch.view_as_real((vc(S).conj() * vc(b)).sum(ca)), "reduce", "reduce_operator", coils)
-            ex = T.expand_operator(x, S, dim=ca)
-            close(ex, torch.view_as_real(vc(S) * vc(x).unsqueeze(ca)), "expand", "expand_operator")
+            red = T.reduce_operator(b, S, dim=ca_arg)
+            close(red, torch.view_as_real((vc(S.contiguous()).conj() * vc(b.contiguous())).sum(ca)), "reduce", "reduce_operator", coils)
+            ex = T.expand_operator(x, S, dim=ca_arg if layout != "negative-axis" else ca - (len(shape) + 1))
+            close(ex, torch.view_as_real(vc(S.contiguous()) * vc(x.contiguous()).unsqueeze(ca)), "expand", "expand_operator")
             # adjointness <E x, y> = <x, R y>
-            lhs = (vc(ex).conj() * vc(b)).sum()
-            rhs = (vc(x).conj() * vc(red)).sum()
+            lhs = (vc(ex.contiguous()).conj() * vc(b.contiguous())).sum()
+            rhs = (vc(x.contiguous()).conj() * vc(red.contiguous())).sum()
             if abs(complex(lhs) - complex(rhs)) > 1e-8 * max(1.0, abs(complex(lhs))):
                 add(Violation("adjoint", "<expand(x), y> != <x, reduce(y)> for %s: %s vs %s" % (cfg, complex(lhs), complex(rhs)), {"config": cfg}, {"fn": "adjoint"}))
             # reduce(expand(x)) = x for maps of unit RSS
-            nrm = (vc(S).abs() ** 2).sum(ca, keepdim=True).sqrt()
+            nrm = (vc(S.contiguous()).abs() ** 2).sum(ca, keepdim=True).sqrt()
             if float(nrm.min()) > 0:
-                Sn = torch.view_as_real(vc(S) / nrm)
+                Sn = torch.view_as_real(vc(S.contiguous()) / nrm)
                 back = T.reduce_operator(T.expand_operator(x, Sn, dim=ca), Sn, dim=ca)
                 if not torch.allclose(back, x, rtol=1e-7, atol=1e-9):
                     add(Violation("reduce-expand-id", "reduce(expand(x)) != x for unit-RSS maps, %s" % cfg, {"config": cfg}, {"fn": "reduce-expand"}))
